@@ -8,6 +8,7 @@ import (
 	"errors"
 	"fmt"
 	"strconv"
+	"time"
 
 	"a0verif/harness/dev"
 	"a0verif/plan"
@@ -17,7 +18,7 @@ import (
 )
 
 // the simulated device reports the time its scripted reads take to the clock seam of the scratch copy
-func init() { dev.ClockJump = zzclock.Jump }
+func init() { dev.ClockJump = func(ms int64) { zzclock.Jump(ms) } }
 
 func q(s string) string { return strconv.QuoteToASCII(s) }
 
@@ -65,7 +66,11 @@ func Exec(op *plan.Op, d *dev.Dev) (o plan.Outcome, h Held) {
 		}
 	}()
 	if op.J != 0 {
-		zzclock.Jump(op.J) // the simulated caller was idle for that long
+		// the simulated caller was idle for that long; timers of the code under test that came due in the
+		// meantime have fired, and what they woke gets a moment to run before the caller's next call
+		if zzclock.Jump(op.J) > 0 {
+			time.Sleep(2 * time.Millisecond)
+		}
 	}
 	lang := bip39.Language(op.Lang)
 	switch op.K {
